@@ -230,3 +230,31 @@ def short_op(op):
             if k in p: p[k] = uncodes(p[k])
         o["p"] = p
     return o
+
+
+# ---------------------------------------------------------------- trace validation (direction A)
+def validate_trace(module, cfg, trace_path, timeout=900, workers=1, extra_env=None):
+    """TLC checks a recorded ndjson trace against a trace specification (POSTCONDITION TraceAccepted).
+    Returns (accepted, rejected_at_line or None, summary, output)."""
+    env = {"TRACE": trace_path}
+    if extra_env: env.update(extra_env)
+    rc, out = run_tlc(module, cfg, workers=workers, timeout=timeout, env=env)
+    summ = tlc_summary(out)
+    m = re.search(r'"TRACE-REJECTED-AT",\s*(\d+)', out)
+    errs = tlc_errors(out)
+    if summ is None or (errs and not m and "Invariant" not in " ".join(errs) and "property" not in " ".join(errs).lower()):
+        raise Infra("TLC failed on trace %s with %s/%s:\n%s" % (trace_path, module, cfg, out[-2500:]))
+    accepted = not errs and m is None
+    return accepted, (int(m.group(1)) if m else None), summ, out
+
+def run_ops(ezdrive, ops, workdir=None, timeout=600, env=None):
+    """Feeds ops (list of dicts) to `ezdrive run`; returns the list of event dicts and the raw text."""
+    d = workdir or scratch("run")
+    e = dict(os.environ)
+    if env: e.update(env)
+    r = subprocess.run([ezdrive, "run", "--dir", d], input="\n".join(json.dumps(o) for o in ops) + "\n",
+                       stdout=subprocess.PIPE, stderr=subprocess.PIPE, text=True, timeout=timeout, env=e)
+    if r.returncode not in (0,):
+        raise Infra("ezdrive run failed rc=%s: %s" % (r.returncode, r.stderr[-1500:]))
+    evs = [json.loads(l) for l in r.stdout.splitlines() if l.strip()]
+    return evs, r.stdout
